@@ -14,6 +14,7 @@ import EngineModel.Driver.Loop
 import EngineModel.Driver.Text
 import EngineModel.Api.CratesV1Wf
 import EngineModel.Spec.Members
+import EngineModel.Spec.PathParts
 
 open EngineModel EngineModel.Text EngineModel.Pure.Detect
 
@@ -161,6 +162,7 @@ structure St where
   tvars : List (String × Id) := []
   dead : Bool := false
   lastOp : String := "create"
+  removed : List Id := []      -- ids of crates removed in this history and not handed out again since
 
 inductive IRes where
   | ok (id : Option Id)
@@ -210,7 +212,13 @@ def judgeForest (st : St) (op : Forest.Op) (r : IRes)
     | .accept f' | .either f' =>
       if isCreate && !Forest.freshId f newId then
         viol st "forest.id-collision" s!"new crate got id {newId} of a live crate"
-      else (onOk { st with forest := f' } f f', "ok")
+      else
+        let gone := f.ids.filter (fun i => !f'.ids.contains i)
+        let st1 := onOk { st with forest := f', removed := (st.removed ++ gone).filter (· != newId || !isCreate) } f f'
+        -- recorded finding `v1-removed-crate-id-reissued`: reported, but the oracle goes on judging
+        if isCreate && st.removed.contains newId then
+          (st1, s!"known forest.removed-id-reissued | after {st.lastOp}: the new crate got id {newId}, the id of a crate removed earlier in this history (handles to the removed crate now designate the new one)")
+        else (st1, "ok")
 
 def judgeMembers (st : St) (op : Members.Op) (r : IRes) : St × String :=
   match r with
@@ -319,6 +327,51 @@ def checkMembersObs (f : Forest.Forest) (s : Members.State) (o : IObs) : Option 
     ((o.perCrate.filter (fun ic => !s.crates.contains ic.id)).map fun ic =>
       chk (ic.tracks.getD [] == []) "members.removed.tracks" (fun _ => s!"removed crate {ic.id} still lists tracks {showOL ic.tracks}")))
 
+/-- C11, derived per-track columns: `filename` is the file-name part of `path`, and the file-extension
+MetaData row (type 13) holds the extension of that file name (NULL when there is none) — judged with the
+independent Spec `Spec.PathParts` (longest suffix without '/' resp. '.'), not with the model's rfind/substr. -/
+def parseOptText (s : String) : Option (Option Name) :=
+  if s == "null" then some none else (parseText s).map some
+
+def parseTrackCols (s : String) : Option (List (Id × Option Name × Option Name)) := do
+  let rs ← splitRows s
+  rs.mapM fun r => match r with
+    | [a, b, c] => do pure ((← a.toInt?), (← parseOptText b), (← parseOptText c))
+    | _ => none
+
+def parseExtRows (s : String) : Option (List (Id × Option Name)) := do
+  let rs ← splitRows s
+  rs.mapM fun r => match r with
+    | [a, b] => do pure ((← a.toInt?), (← parseOptText b))
+    | _ => none
+
+def checkTrackCols (tr : List (Id × Option Name × Option Name)) (ext : List (Id × Option Name)) : Option (String × String) :=
+  firstFail (tr.flatMap fun (id, path, fname) =>
+    match path with
+    | none => []
+    | some p =>
+      let want := PathParts.fileNamePart p
+      let wantExt := PathParts.extensionPart want
+      let got := (ext.filter (·.1 == id)).map (·.2)
+      [ chk (fname == some want) "wfraw.track-filename"
+          (fun _ => s!"track {id}: path {hexBytes p}, filename {repr (fname.map hexBytes)}, expected {hexBytes want}"),
+        chk (got == [wantExt] || (wantExt == none && got == [])) "wfraw.track-extension"
+          (fun _ => s!"track {id}: path {hexBytes p}, extension rows {repr (got.map (·.map hexBytes))}, expected {repr (wantExt.map hexBytes)}") ])
+
+def parseIdRows (s : String) : Option (List Id) := do
+  let rs ← splitRows s
+  rs.mapM fun r => match r with
+    | [a] => a.toInt?
+    | _ => none
+
+/-- No MetaData / MetaDataInteger / PerformanceData row of a track that does not exist. -/
+def checkTrackDeps (dep perf ids : List Id) : Option (String × String) :=
+  firstFail [
+    chk (dep.all ids.contains) "wfraw.metadata-of-missing-track"
+      (fun _ => s!"MetaData / MetaDataInteger rows of tracks {dep.filter (fun i => !ids.contains i)} which are not in Track {ids}"),
+    chk (perf.all ids.contains) "wfraw.performancedata-of-missing-track"
+      (fun _ => s!"PerformanceData rows of tracks {perf.filter (fun i => !ids.contains i)} which are not in Track {ids}") ]
+
 def checkWf (o : IObs) : Option (String × String) :=
   match Api.CratesV1.wfFailures o.raw with
   | [] => none
@@ -378,7 +431,7 @@ def stepLine (st : St) (cmd : String) (args : List String) : St × String :=
       else viol st "forest.crate_by_id" s!"crate_by_id({i}) returned {j}"
     | some i, .none_ => if st.forest.live i then viol st "forest.crate_by_id" s!"crate_by_id({i}) found nothing" else (st, "ok")
     | _, _ => viol st "protocol" "getcrate"
-  | "v1.mktrack", [v, _] =>
+  | "v1.mktrack", v :: _ =>
     match r with
     | .ok (some i) =>
       if st.members.tracks.contains i then viol st "members.id-collision" s!"new track got id {i} of a live track"
@@ -394,21 +447,41 @@ def stepLine (st : St) (cmd : String) (args : List String) : St × String :=
   | "cleartracks", [v] => withC st v fun c => judgeMembers st (.clear c) r
   | "v1.save", _ => (st, "ok")
   | "v1.restore", _ => (st, "ok")     -- handled by `stepWithImage`
+  | "v1.trackcols", _ =>
+    match rt with
+    | ["ok", "Track", t, "Ext", e, "Dep", d, "Perf", p, "Ids", i] =>
+      match parseTrackCols t, parseExtRows e, parseIdRows d, parseIdRows p, parseIdRows i with
+      | some tr, some ex, some dep, some perf, some ids =>
+        match checkTrackCols tr ex with
+        | some (tag, d) => viol st tag d
+        | none =>
+          match checkTrackDeps dep perf ids with
+          | some (tag, d) => viol st tag d
+          | none => (st, "ok")
+      | _, _, _, _, _ => viol st "protocol" "unparsable v1.trackcols"
+    | _ => viol st "protocol" "v1.trackcols failed"
+  | "rawq", _ =>
+    -- supporting run-time checks: PRAGMA integrity_check answers one row 'ok', foreign_key_check no row
+    match rt with
+    | ["ok", "(s6f6b)"] | ["ok", "()"] => (st, "ok")
+    | _ => viol st "wfraw.sqlite-check" ("PRAGMA check answered " ++ " ".intercalate rt)
+  | "db.q", _ =>
+    match a, r with
+    | ["verify"], .ok none => (st, "ok")
+    | ["verify"], _ => viol st "wfraw.verify" ("verify() answered " ++ " ".intercalate rt)
+    | _, _ => (st, "ok")
   | "v1.obs", _ =>
     match rt with
     | "ok" :: body =>
       match runP pObs body with
       | none => viol st "protocol" "unparsable observation"
       | some o =>
-        match checkForestObs st.forest o with
-        | some (t, d) => viol st t d
-        | none =>
-          match checkMembersObs st.forest st.members o with
-          | some (t, d) => viol st t d
-          | none =>
-            match checkWf o with
-            | some (t, d) => viol st t d
-            | none => (st, "ok")
+        -- the three families are judged independently; every failing one is named (first failing check of each)
+        match [checkForestObs st.forest o, checkMembersObs st.forest st.members o, checkWf o].filterMap id with
+        | [] => (st, "ok")
+        | (t, d) :: rest =>
+          let (st', line) := viol st t d
+          (st', line ++ String.join (rest.map fun (t, d) => s!" ## {t} | {d}"))
     | _ => viol st "protocol" "observation failed"
   | _, _ => (st, "ok")
 
